@@ -5,6 +5,7 @@
   bin/check selftest seeded [id ...]             sensitivity: every change under /verif/seeded (made by independent
                                                  sub-agents) must be reported by its property's quick check
   bin/check selftest mutants [id ...]            the same for the hand-written mutants under mystsim/mutants
+  bin/check selftest benign [id ...]             specificity: property-preserving changes under /verif/benign must stay quiet
   bin/check selftest replays                     every recorded finding reproduces (same signature) on the tree just
                                                  before its repair, and passes on the current tree
 
@@ -97,6 +98,24 @@ def _apply_and_check(sid: str, d: str, prop: str, patch: str, tier: str = "quick
         shutil.rmtree(scratch, ignore_errors=True)
 
 
+def benign(argv: list[str]) -> int:
+    """Specificity: property-preserving changes (made by independent sub-agents) must NOT be reported."""
+    root = os.path.join(VERIF, "benign")
+    ids = [a for a in argv if not a.startswith("-")] or sorted(
+        x for x in os.listdir(root) if os.path.isdir(os.path.join(root, x)))
+    alarms = errors = 0
+    for sid in ids:
+        d = os.path.join(root, sid)
+        meta = json.load(open(os.path.join(d, "meta.json")))
+        status, info = _apply_and_check(sid, d, meta["property"], os.path.join(d, "patch.diff"))
+        verdict = {"MISSED": "quiet (as it must be)", "caught": "FALSE ALARM"}.get(status, status)
+        print(f"{sid}: {verdict} {json.dumps(info)[:400] if status != 'MISSED' else ''}", flush=True)
+        alarms += status == "caught"
+        errors += status in ("apply-failed", "harness-error")
+    print(f"specificity: {len(ids)} property-preserving changes, {alarms} false alarms, {errors} errors")
+    return 2 if errors else (1 if alarms else 0)
+
+
 def _sensitivity(root: str, argv: list[str]) -> int:
     ids = [a for a in argv if not a.startswith("-")] or sorted(
         x for x in os.listdir(root) if os.path.isdir(os.path.join(root, x)))
@@ -155,6 +174,8 @@ def main(argv: list[str]) -> int:
     what, rest = argv[0], argv[1:]
     if what == "determinism":
         return determinism(rest)
+    if what == "benign":
+        return benign(rest)
     if what == "replays":
         return replays(rest)
     if what == "seeded":
